@@ -41,6 +41,15 @@ def dispatch (op : String) (args : List String) : Option String :=
         | some (outs, pieces) =>
           " T ".intercalate (outs.map showTrack) ++ " R " ++
             (if pieces.isEmpty then "-" else ",".intercalate (pieces.map fun c => s!"{c.off}:{c.size}")))
+  -- cropmdat <ms> <payloadStart> <base> <hex> {track}* : the payload the tool writes into the new mdat (`writeMdat`: the merged
+  -- byte ranges copied in the order in which `fillTrakOutsAndByteRanges` collected them); the input file is given as the
+  -- payload of its media mdat (`hex`) starting at absolute offset `base`
+  | "cropmdat", ms :: start :: base :: hex :: rest => do
+      let tracks ← parseTracks rest
+      let file := List.replicate (← base.toNat?) 0 ++ (← fromHex hex)
+      pure (match cropAll tracks (← ms.toNat?) (← start.toNat?) with
+        | none => "fail"
+        | some (_, pieces) => toHex (copied file pieces))
   -- crophdr <ms> <mvhd timescale> <mvhd duration> <n> {tkhdDur elst}*n {track}*n : the header durations after the crop
   | "crophdr", ms :: mts :: mdur :: n :: rest => do
       let n ← n.toNat?
